@@ -273,4 +273,186 @@ theorem callCachedF_eq_or_refused (r : Refuse V) (cfg : Cfg) (s : St K V) (ci : 
           · exact Or.inl h
           · exact Or.inr ⟨1, h⟩
 
+/-! ## 3. refused or not: one insertion, then moves from memory to the archive -/
+
+theorem get?_append (a b : List (K × V)) (j : K) :
+    get? (a ++ b) j = match get? a j with | some v => some v | none => get? b j := by
+  induction a with
+  | nil => rfl
+  | cons p a ih =>
+    simp only [List.cons_append, get?]
+    split
+    · rfl
+    · exact ih
+
+theorem get?_goodPrefix (r : Refuse V) (m : List (K × V)) (j : K) (v : V)
+    (h : get? (Cache.goodPrefix r m) j = some v) : get? m j = some v := by
+  have hm : m = Cache.goodPrefix r m ++ m.dropWhile (fun p => !r.bad p.2) := by
+    unfold Cache.goodPrefix; exact (List.takeWhile_append_dropWhile).symm
+  rw [hm, get?_append, h]
+
+theorem nodup_goodPrefix (r : Refuse V) (m : List (K × V)) (hn : (keys m).Nodup) :
+    (keys (Cache.goodPrefix r m)).Nodup := by
+  unfold keys Cache.goodPrefix at *
+  exact List.Nodup.sublist (List.Sublist.map _ (List.takeWhile_sublist _)) hn
+
+/-- what a refused `cache.dump()` leaves: memory as it was, some resident entries copied to the archive -/
+theorem moveRel_dumpAllF_error (r : Refuse V) (c c' : Cache K V) (hn : (keys c.mem).Nodup)
+    (h : c.dumpAllF r = .error c') : MoveRel c c' ∧ c'.mem = c.mem := by
+  unfold Cache.dumpAllF at h
+  split at h
+  · rename_i a ha
+    split at h
+    · cases h
+      split
+      · exact ⟨MoveRel.refl _, rfl⟩
+      · refine ⟨⟨fun j => Or.inl rfl, fun j => ?_, rfl, by simp [Cache.archived, ha], id⟩, rfl⟩
+        simp only [Cache.aget, ha]
+        rw [get?_update_nodup _ _ _ (nodup_goodPrefix r c.mem hn)]
+        cases hp : get? (Cache.goodPrefix r c.mem) j with
+        | none => exact Or.inl rfl
+        | some v =>
+          have := get?_goodPrefix r c.mem j v hp
+          exact Or.inr ⟨by rw [this]; rfl, by rw [this]⟩
+    · cases h
+  · cases h
+
+theorem leaves_of_mem_eq {c c' : Cache K V} (h : c'.mem = c.mem) : Leaves c c' := by
+  intro j hn hs; rw [h] at hn; rw [hn] at hs; cases hs
+
+theorem rel_lfuFoldF (r : Refuse V) (vs : List (K × Nat)) (s : St K V) (hn : (keys s.c.mem).Nodup) :
+    MoveRel s.c (lfuFoldF r vs s).1.c ∧ (s.c.archived = true → Leaves s.c (lfuFoldF r vs s).1.c) := by
+  induction vs generalizing s with
+  | nil => exact ⟨MoveRel.refl _, fun _ => Leaves.refl _⟩
+  | cons p vs ih =>
+    simp only [lfuFoldF]
+    cases hd : s.c.dump1F r p.1 with
+    | none => exact ⟨MoveRel.refl _, fun _ => Leaves.refl _⟩
+    | some c =>
+      simp only
+      have hc := dump1F_some r _ _ _ hd
+      subst hc
+      have m1 := moveRel_evictOne s.c p.1 hn
+      have ih' := ih ({ s with c := (s.c.dump1 p.1).delMem p.1, uc := erase s.uc p.1 } : St K V) (m1.nodup hn)
+      refine ⟨m1.trans ih'.1, fun ha => ?_⟩
+      exact Leaves.trans m1 ih'.1 (leaves_evictOne s.c p.1 hn ha) (ih'.2 (by rw [m1.archived]; exact ha))
+
+/-- whatever the `# purge cache` block leaves behind - completed or refused part-way - entries only moved from
+memory to the archive, and what left memory is archived -/
+theorem rel_overflowF (r : Refuse V) (cfg : Cfg) (s s' : St K V) (vi : Option K) (hn : (keys s.c.mem).Nodup)
+    (h : overflowF r cfg s vi = .ok s' ∨ overflowF r cfg s vi = .refused s') :
+    MoveRel s.c s'.c ∧ (s.c.archived = true → Leaves s.c s'.c) := by
+  rcases overflowF_cases r cfg s vi with hc | ⟨s'', hc⟩
+  · -- as in M3
+    rw [hc] at h
+    cases ho : overflow cfg s vi with
+    | none => rw [ho] at h; rcases h with h | h <;> cases h
+    | some t =>
+      rw [ho] at h
+      rcases h with h | h
+      · cases h; exact ⟨moveRel_overflow cfg s s' vi hn ho, fun ha => leaves_overflow cfg s s' vi hn ha ho⟩
+      · cases h
+  · -- refused
+    rw [hc] at h
+    rcases h with h | h
+    · cases h
+    · cases h
+      unfold overflowF at hc
+      split at hc
+      · split at hc
+        · cases hd : s.c.dumpAllF r with
+          | ok c => rw [hd] at hc; cases hc
+          | error c =>
+            rw [hd] at hc; cases hc
+            obtain ⟨hm, he⟩ := moveRel_dumpAllF_error r s.c c hn hd
+            exact ⟨hm, fun _ => leaves_of_mem_eq he⟩
+        · cases hA : cfg.algo with
+          | no => rw [hA] at hc; cases hc
+          | inf => rw [hA] at hc; cases hc
+          | lfu =>
+            rw [hA] at hc; simp only at hc
+            split at hc
+            · cases hc; exact rel_lfuFoldF r _ s hn
+            · cases hc
+          | lru =>
+            rw [hA] at hc; simp only at hc
+            split at hc
+            · cases hc
+            · split at hc
+              · cases hc
+              · cases hc; exact ⟨MoveRel.refl _, fun _ => Leaves.refl _⟩
+          | mru =>
+            rw [hA] at hc; simp only at hc
+            split at hc
+            · cases hc
+            · split at hc
+              · cases hc
+              · cases hc; exact ⟨MoveRel.refl _, fun _ => Leaves.refl _⟩
+          | rr =>
+            rw [hA] at hc; simp only at hc
+            split at hc
+            · split at hc
+              · cases hc
+              · cases hc; exact ⟨MoveRel.refl _, fun _ => Leaves.refl _⟩
+            · cases hc
+      · cases hc
+
+theorem rel_finishF (r : Refuse V) (cfg : Cfg) (s2 : St K V) (k : K) (v : V) (n : Nat) (vi : Option K)
+    (hn : (keys s2.c.mem).Nodup) :
+    MoveRel s2.c (finishF r cfg s2 k v n vi).1.c ∧ (s2.c.archived = true → Leaves s2.c (finishF r cfg s2 k v n vi).1.c) := by
+  unfold finishF
+  split
+  · exact ⟨MoveRel.refl _, fun _ => Leaves.refl _⟩
+  · cases ho : overflowF r cfg s2 vi with
+    | indexErr => exact ⟨MoveRel.refl _, fun _ => Leaves.refl _⟩
+    | refused s3 => simpa using rel_overflowF r cfg s2 s3 vi hn (Or.inr ho)
+    | ok s3 => simpa [post_c] using rel_overflowF r cfg s2 s3 vi hn (Or.inl ho)
+
+/-- the characterisation `callCached_rel` gives of M3's call holds of M3F's call, refused or not -/
+theorem callCachedF_rel (r : Refuse V) (cfg : Cfg) (s : St K V) (ci : CallIn K V) (hn : (keys s.c.mem).Nodup) :
+    ∃ c2, (c2 = s.c ∨ ∃ k v, ci.key = .ok k ∧ Ins s.c c2 k v) ∧
+      MoveRel c2 (callCachedF r cfg s ci).1.c ∧
+      (s.c.archived = true → Leaves c2 (callCachedF r cfg s ci).1.c) := by
+  unfold callCachedF
+  cases hkey : ci.key with
+  | genError e =>
+    refine ⟨s.c, Or.inl rfl, ?_, fun _ => ?_⟩ <;>
+      (simp only [keyFail]; split <;> simp only [evalDirect_c] <;> first | exact MoveRel.refl _ | exact Leaves.refl _)
+  | unhashable e =>
+    refine ⟨s.c, Or.inl rfl, ?_, fun _ => ?_⟩ <;>
+      (simp only [keyFail]; split <;> simp only [evalDirect_c] <;> first | exact MoveRel.refl _ | exact Leaves.refl _)
+  | ok k =>
+    simp only
+    cases hm : get? s.c.mem k with
+    | some v =>
+      refine ⟨s.c, Or.inl rfl, ?_, fun _ => ?_⟩ <;>
+        (simp only [hitStep, post_c]; split <;> simp only [useKey_c] <;> first | exact MoveRel.refl _ | exact Leaves.refl _)
+    | none =>
+      simp only
+      cases hl : get? (s.c.preload k).mem k with
+      | some v =>
+        simp only
+        obtain ⟨hins, _⟩ := ins_of_load s.c k v hm hl
+        have h := rel_finishF r cfg ({ useKey cfg { s with c := s.c.preload k } k with
+            load := (useKey cfg { s with c := s.c.preload k } k).load + 1 }) k v 0 ci.victim
+            (by simpa using hins.nodup hn)
+        refine ⟨s.c.preload k, Or.inr ⟨k, v, rfl, hins⟩, ?_, fun ha => ?_⟩
+        · simpa [loadStepF] using h.1
+        · simpa [loadStepF] using h.2 (by simpa [hins.archived] using ha)
+      | none =>
+        simp only
+        cases hf : ci.fn with
+        | error e => exact ⟨s.c, Or.inl rfl, MoveRel.refl _, fun _ => Leaves.refl _⟩
+        | ok v =>
+          simp only
+          have hins := ins_of_miss s.c k v hm hl
+          have h := rel_finishF r cfg ({ useKey cfg { s with c := { s.c.preload k with
+                mem := put (s.c.preload k).mem k v } } k with
+              miss := (useKey cfg { s with c := { s.c.preload k with
+                mem := put (s.c.preload k).mem k v } } k).miss + 1 }) k v 1 ci.victim
+              (by simpa using hins.nodup hn)
+          refine ⟨_, Or.inr ⟨k, v, rfl, hins⟩, ?_, fun ha => ?_⟩
+          · simpa [missStepF] using h.1
+          · simpa [missStepF] using h.2 (by simpa [Cache.archived] using ha)
+
 end Klepto
